@@ -87,7 +87,7 @@ def conditions_at(node, stop=None) -> list[Atom]:
     out: list[Atom] = []
     child = node
     parent = getattr(node, "_parent", None)
-    while parent is not None and child is not stop:
+    while parent is not None and child is not stop and parent is not stop:
         if isinstance(parent, (ast.FunctionDef, ast.AsyncFunctionDef,
                                ast.Lambda, ast.ClassDef, ast.Module)):
             # earlier siblings in the function body still count
